@@ -458,6 +458,36 @@ func runC13(w *core.World, r *core.Report) {
 			in, path := core.Reach(core.After(call), core.IsReturn, cut)
 			r.Check(in == nil, "R3", core.QName(fn)+": local transaction ended on every path", call.Pos(), "Commit or Rollback before every return",
 				"a return after a successful BeginTx leaves the transaction open on the connection: "+w.PathString(path))
+			// ... and ended at most once: no closer (explicit, or deferred and therefore run at the
+			// return) can follow another on one path
+			twice := ""
+			for x := range cut.Instrs {
+				if !isOnTx(x) {
+					continue
+				}
+				for y := range cut.Instrs {
+					if y == x || !isOnTx(y) {
+						continue
+					}
+					if in2, _ := core.Reach(core.After(x), core.IsInstr(y), nil); in2 == nil {
+						continue
+					}
+					// rolling back after a commit that failed is the one legitimate sequence: the
+					// second closer is only reached on the failure edge of the first one's error
+					if xc, ok := x.(*ssa.Call); ok && strings.HasSuffix(core.CallName(xc), ".Commit") {
+						if ev := callErr(xc); ev != nil {
+							if edges := errNonNilEdges(ev); len(edges) > 0 {
+								if must, _ := core.MustPass(y, core.NewCut().AddEdge(edges...)); must && strings.HasSuffix(core.CallName(y.(ssa.CallInstruction)), ".Rollback") {
+									continue
+								}
+							}
+						}
+					}
+					twice = fmt.Sprintf("closer at %s and then closer at %s", w.Pos(x.Pos()), w.Pos(y.Pos()))
+				}
+			}
+			r.Check(twice == "", "R3", core.QName(fn)+": local transaction ended once", call.Pos(), "no closer follows another on any path",
+				"the transaction is ended twice on one path (for instance rolled back explicitly and committed by a deferred call): "+twice)
 			// failure edge does not touch the handle
 			bad := ""
 			for _, e := range errNonNilEdges(ev) {
